@@ -50,7 +50,7 @@ def prep(how, v):
 
 
 def gen_hierarchy(src):
-    shape = src.pick(["chain1", "chain2", "chain2", "chain3", "two_parents", "two_parents"])
+    shape = src.pick(["chain1", "chain2", "chain2", "chain3", "two_parents", "two_parents", "plain_mid"])
     classes = []
     avail = list(NAMES)
 
@@ -83,7 +83,16 @@ def gen_hierarchy(src):
                 c["prepare"][a["name"]] = "abs" if a["type"] == "int" else "strip"
         return c
 
-    if shape == "two_parents":
+    if shape == "plain_mid":
+        # spec class <- undecorated class <- spec class
+        A = mk("A", [], 1 + src.choice(2), True)
+        Y = {"name": "Y", "kind": "plain", "bases": ["A"], "attrs": [], "redefaults": {}, "prepare": {}}
+        for a in A["attrs"]:
+            if src.chance(1, 3) and a.get("init") is not False:
+                Y["redefaults"][a["name"]] = src.pick(VALS[a["type"]])
+        C = mk("C", ["Y"], 1 + src.choice(2), False)
+        classes = [A, Y, C]
+    elif shape == "two_parents":
         A = mk("A", [], 1 + src.choice(2), True)
         B = mk("B", [], 1 + src.choice(2), True)
         C = mk("C", ["A", "B"], src.choice(2), False)
@@ -97,6 +106,9 @@ def gen_hierarchy(src):
             prev = [c["name"]]
     # key / overflow on a root class
     root = classes[0]
+    for c in classes:
+        if c["kind"] == "plain" and root["attrs"]:
+            c["redefaults"].pop(root["attrs"][0]["name"], None)  # the (potential) key is never re-defaulted by a plain class
     if src.chance(1, 3) and root["attrs"] and not root.get("user_init"):
         k = root["attrs"][0]
         k["type"] = "str"
@@ -110,6 +122,8 @@ def gen_hierarchy(src):
         last["overflow"] = "extra"
     # re-declare / re-default inherited attributes in non-root classes
     for c in classes[1:]:
+        if c["kind"] != "spec":
+            continue  # undecorated classes only re-default (below / at creation), they declare nothing
         inherited = _inherited(classes, c)
         for name, (T, owner) in inherited.items():
             if classes[0].get("key") == name:
